@@ -257,6 +257,8 @@ func c14EndToEnd(r *hx.Run, rnd *rand.Rand, shapes []locSpec) {
 	port := hx.FreePorts(1)[0]
 	addr := srvAddr(port)
 	var origins []string
+	addr2 := srvAddr(hx.FreePorts(1)[0])
+	var names2 []string
 	// dead[i]: the upstream of location i has no server that answers (nobody listens on its port)
 	dead := map[int]bool{}
 	deadAddr := "http://" + srvAddr(hx.FreePorts(1)[0])
@@ -273,10 +275,15 @@ func c14EndToEnd(r *hx.Run, rnd *rand.Rand, shapes []locSpec) {
 			cfg.Locations = append(cfg.Locations, config.LocationConfig{Name: l.Name, Upstream: fmt.Sprintf("u%d", i), Hosts: l.Hosts, Prefixes: l.Prefixes})
 		}
 		cfg.Servers = []config.ServerConfig{{Addr: addr, Locations: names, Cache: "c"}}
+		if names2 != nil {
+			// a second server of the same instance with its own list of locations
+			cfg.Servers = append(cfg.Servers, config.ServerConfig{Addr: addr2, Locations: names2, Cache: "c"})
+		}
 		return cfg
 	}
 	w := newWorldCfg(r, nOrig, false, func(o []string) *config.PikeConfig {
 		origins = o
+		names2 = []string{"n0"}
 		return mk([]locSpec{{Name: "n0"}}, []string{"n0"})
 	})
 	defer w.Farm.Close()
@@ -310,6 +317,17 @@ func c14EndToEnd(r *hx.Run, rnd *rand.Rand, shapes []locSpec) {
 		if len(names) == 0 {
 			names = []string{locs[0].Name}
 		}
+		// (the second server is part of every configuration: removing and re-adding a listener within its
+		// 10 s graceful close is the known finding of C16, not the subject here)
+		names2 = nil
+		for j := range locs {
+			if rnd.Intn(2) == 0 {
+				names2 = append(names2, locs[j].Name)
+			}
+		}
+		if len(names2) == 0 {
+			names2 = []string{locs[len(locs)-1].Name}
+		}
 		w.Cfg = mk(locs, names)
 		w.apply(r)
 		for _, h := range []string{"h1", "h2", "h3"} {
@@ -317,7 +335,12 @@ func c14EndToEnd(r *hx.Run, rnd *rand.Rand, shapes []locSpec) {
 				q++
 				uri := fmt.Sprintf("%s?q=%d", u, q)
 				before := w.Farm.LogLen()
-				rq := hx.Req{Method: "POST", Addr: addr, Host: h, URI: uri, Body: []byte("x")}
+				srvNames, srvAddr2 := names, addr
+				if names2 != nil && q%2 == 0 {
+					srvNames, srvAddr2 = names2, addr2
+					r.Add("e2e_requests_to_a_second_server_with_its_own_list", 1)
+				}
+				rq := hx.Req{Method: "POST", Addr: srvAddr2, Host: h, URI: uri, Body: []byte("x")}
 				if q%3 == 0 {
 					// what a front proxy (or anybody) may add names another configured host: routing goes by Host
 					rq.Header = http.Header{"X-Forwarded-Host": {[]string{"h1", "h2", "h3"}[rnd.Intn(3)]}, "Forwarded": {"host=h2"}}
@@ -325,10 +348,10 @@ func c14EndToEnd(r *hx.Run, rnd *rand.Rand, shapes []locSpec) {
 				}
 				res := w.Cl.Do(rq)
 				fetches := w.Farm.LogSince(before)
-				want := refRoute(locs, names, h, uri)
+				want := refRoute(locs, srvNames, h, uri)
 				r.Eval(1)
 				r.Add("e2e_requests", 1)
-				cs := map[string]interface{}{"locations": locs, "server_locations": names, "host": h, "uri": uri}
+				cs := map[string]interface{}{"locations": locs, "server_locations": srvNames, "other_server_locations": names2, "host": h, "uri": uri}
 				if len(want) == 0 {
 					r.Add("e2e_no_match", 1)
 					if len(fetches) != 0 || res.Status < 500 {
